@@ -114,7 +114,7 @@ func checkC04(p *Prog, res *Result, tier string) {
 	res.min("FRAG", 1)
 	res.min("POOL", 2)
 	res.min("MOVE", 2)
-	res.min("NUMA", 4)
+	res.min("NUMA", 5)
 	res.min("MEM", 4)
 	res.min("AVL", 1)
 	res.min("REC", 2)
@@ -733,6 +733,31 @@ func c04NUMA(p *Prog, res *Result) {
 		}
 		return true
 	})
+	// both planning calls are asked for the same amounts: the request's CPU request and its MEMORY REQUEST (the amount that
+	// is booked per instance) — planning with another amount (e.g. the limit) cuts the plan list against a number that is
+	// not what gets booked
+	{
+		n, bad := 0, ""
+		fn.inspectBody(func(x ast.Node) bool {
+			c, ok := x.(*ast.CallExpr)
+			if !ok || fn.Callee(c) == nil || fn.Callee(c).Name() != "doGetCPUPlans" || len(c.Args) != 7 {
+				return true
+			}
+			n++
+			if !strings.HasSuffix(exprStr(c.Args[5]), ".CPURequest") {
+				bad = "the CPU amount handed to the planner at " + p.pos(c) + " is `" + exprStr(c.Args[5]) + "`, not the request's CPURequest"
+			}
+			if !strings.HasSuffix(exprStr(c.Args[6]), ".MemRequest") {
+				bad = "the memory amount handed to the planner at " + p.pos(c) + " is `" + exprStr(c.Args[6]) + "`, not the request's MemRequest (which is what each plan is booked with): a node whose free memory lies between the two amounts is planned differently from how it is booked"
+			}
+			return true
+		})
+		if n == 0 {
+			res.undecided("NUMA", fn.Name+" / planner amounts", p.pos(fn.Decl), "no doGetCPUPlans call")
+		} else {
+			res.check2(bad, "NUMA", fn.Name+" / every planning call is asked for the request's CPURequest and MemRequest", p.pos(fn.Decl), fmt.Sprintf("%d call(s): (…, req.CPURequest, req.MemRequest)", n))
+		}
+	}
 	res.check(okCross, "NUMA", fn.Name+" / the cross-node plans are computed from what the per-node plans left", p.pos(fn.Decl), "doGetCPUPlans(origin, available.CPUMap, available.Memory, …) after the loop", "the cross-node planning does not start from the available resource that the per-node plans were subtracted from")
 }
 
